@@ -121,6 +121,7 @@ class SimNet(object):
         self.connect_plan = []     # per connect attempt: "ok" | "refused" | "timeout"
         self.connect_count = 0
         self.log = []              # socket-level log for oracles: (kind, conn id, ...)
+        self.bad_send_tag = lambda: ()   # extra tuple elements for rejected writes (set by a world)
         Conn._n = 0
 
     # ---------------------------------------------------------------- server side
@@ -263,10 +264,10 @@ class SimSocket(object):
         k.yield_()
         conn = self.conn
         if self.closed:
-            net.log.append(("send-after-close", conn.id if conn else None, len(data)))
+            net.log.append(("send-after-close", conn.id if conn else None, len(data)) + net.bad_send_tag())
             raise OSError(errno.EBADF, "Bad file descriptor")
         if conn is None or conn.state != "up":
-            net.log.append(("send-not-connected", conn.id if conn else None, len(data)))
+            net.log.append(("send-not-connected", conn.id if conn else None, len(data)) + net.bad_send_tag())
             raise OSError(errno.ENOTCONN, "not connected")
         if self.shut_wr:
             raise OSError(errno.EPIPE, "Broken pipe")
